@@ -834,6 +834,9 @@ func execStringsPadding(fn parser.Function, args []value.Primary, direction Dire
 
 	padLen := length - strLen
 	repeat := int(math.Ceil(float64(padLen) / float64(padstrLen)))
+	if repeat < 0 || math.MaxInt32 < repeat {
+		return nil, NewFunctionInvalidArgumentError(fn, fn.Name, "length is too long")
+	}
 	padding := strings.Repeat(padstr, repeat)
 	switch padType {
 	case PaddingRuneCount:
